@@ -496,6 +496,14 @@ class World:
         serial = self.next_serial()
         cls = PROG_TYPES[op.get("type", "E")]
         self.raised[serial] = (cls.__name__, a)
+        if op.get("chained"):
+            # raised while handling another exception: the failure carries it as its context
+            context = self.next_serial()
+            self.log(a, "raise", cls.__name__, serial, context)
+            try:
+                raise PROG_TYPES["K"](context, "context")
+            except PROG_TYPES["K"]:
+                raise cls(serial, "prog")
         self.log(a, "raise", cls.__name__, serial)
         raise cls(serial, "prog")
 
